@@ -16,6 +16,7 @@ type Profile struct {
 	PCached  float64        // probability that a batch/query op goes through a registered filter
 	PEmpty   float64        // probability of empty add/remove lists
 	NoLogic  bool           // only mask/relation filters
+	RelRegs  bool           // registered filters are mostly relation filters
 	Late     []string       // type keys registered late by RegisterType ops
 }
 
@@ -729,7 +730,11 @@ func (g *Gen) gen(k string) *Op {
 			return nil
 		}
 		g.nextSlot++
-		return &Op{K: k, F: g.Filter(2, true), Slot: ip(g.nextSlot)}
+		f := g.Filter(2, true)
+		if g.P.RelRegs && R.Chance(0.7) && len(g.relsUsed()) > 0 {
+			f = g.relFilter(Pick(R, g.relsUsed()))
+		}
+		return &Op{K: k, F: f, Slot: ip(g.nextSlot)}
 	case "CacheUnregister":
 		if len(g.S.regs) == 0 {
 			return nil
